@@ -33,11 +33,16 @@ structure Defects where
   /-- `query.rs:496`: a stored explicit `null` is returned as `null` although the field (since made
       non-nullable) has a default; filters do apply the default -/
   explicitNullHidesDefault : Bool
-  /-- `query.rs:1063-1075`: `skip k` without `first` produces a statement the engine refuses -/
+  /-- `query.rs:1063-1075` before fix a7dcc50: `skip k` without `first` produced a statement the engine refused.
+      Fixed in /repo: off in `asImplemented`, kept for the regression replay. -/
   skipWithoutFirstFails : Bool
-  /-- `query.rs:595-610`: `min`/`max` are applied to the JSON text of the values (`_json->'$.k'`), so numbers are
-      compared as texts (`max(9, 10) = 9`) -/
+  /-- `query.rs:595-610` before fix 4f128e8: `min`/`max` were applied to the JSON text of the values
+      (`_json->'$.k'`), so numbers were compared as texts (`max(9, 10) = 9`).
+      Fixed in /repo: off in `asImplemented`, kept for the regression witness. -/
   minMaxCompareText : Bool
+  /-- `query.rs:666-678`: `field = null` / `field != null` on a reference field looks at the value selected under
+      the field's own name: without such a selection the field always counts as absent -/
+  refFilterNeedsSelection : Bool
   /-- `query.rs:269-285`: a sub-selection is joined to its parent through the parent's key; when it has the
       same key as its parent (`parents { parents { … } }`) it is joined to itself and only selects rows that
       reference themselves -/
@@ -46,13 +51,17 @@ deriving Repr, DecidableEq
 
 def Defects.asImplemented : Defects :=
   { cursorDropsAbsentKeys := true, orderIgnoresDefault := true, boolDefaultAsNumber := true,
-    nullParamNeverMatches := true, explicitNullHidesDefault := true, skipWithoutFirstFails := true,
-    minMaxCompareText := true, sameKeyShadowsParent := true }
+    nullParamNeverMatches := true, explicitNullHidesDefault := true, skipWithoutFirstFails := false,
+    minMaxCompareText := false, refFilterNeedsSelection := true, sameKeyShadowsParent := true }
+
+/-- the code before the fixes 4f128e8 (min/max) and a7dcc50 (skip without first) -/
+def Defects.beforeFixes : Defects :=
+  { Defects.asImplemented with skipWithoutFirstFails := true, minMaxCompareText := true }
 
 def Defects.none : Defects :=
   { cursorDropsAbsentKeys := false, orderIgnoresDefault := false, boolDefaultAsNumber := false,
     nullParamNeverMatches := false, explicitNullHidesDefault := false, skipWithoutFirstFails := false,
-    minMaxCompareText := false, sameKeyShadowsParent := false }
+    minMaxCompareText := false, refFilterNeedsSelection := false, sameKeyShadowsParent := false }
 
 /-! ## Data -/
 
@@ -107,6 +116,8 @@ structure Filter where
   op : Cmp
   value : Val
   isParam : Bool        -- the value was given as a parameter
+  name : String := ""   -- the name typed in the filter (used for reference fields and aggregate aliases)
+  onRef : Bool := false -- `field = null` / `field != null` on a reference field
 deriving Repr, DecidableEq
 
 structure Order where
@@ -315,10 +326,43 @@ mutual
       let ok := cands.filter fun r =>
         r.ent = ent &&
         q.sels.all (fun sel => subPresent d s data fuel myKey r sel) &&
-        q.filters.all (filterHolds d s ent r)
+        q.filters.all (holds d s data fuel myKey q r)
       let sorted := sortBy (fun a b => tupleLe q.orders (keysOf d s ent q.orders a) (keysOf d s ent q.orders b)) ok
       let paged := sorted.filter fun r => cursorHolds d q.orders q.after q.before (keysOf d s ent q.orders r)
       if limited then limit q.first q.skip paged else paged
+
+  /-- one filter of `q` on the row `r`: a scalar filter, or `= null` / `!= null` on a reference field -/
+  def holds (d : Defects) (s : Schema) (data : Data) : Nat → String → Query → Row → Filter → Bool
+    | 0, _, q, r, f => if f.onRef then false else filterHolds d s q.ent r f
+    | fuel + 1, myKey, q, r, f =>
+      if f.onRef then
+        let present : Bool :=
+          if d.refFilterNeedsSelection then
+            -- what the selection under the field's own name returns for this row
+            q.sels.any fun sel =>
+              match sel with
+              | .sub key fld _ sq =>
+                key = f.name && fld = f.fld &&
+                  (match fieldDef s r.ent fld with
+                   | some fd =>
+                     !(evalRows d s data fuel key sq (subCandidates d data myKey key r fld sq.ent)
+                        (match fd.kind with | .arr _ => true | _ => false)).isEmpty
+                   | none => false)
+              | _ => false
+          else
+            -- does the row reference anything through the field?
+            (match fieldDef s r.ent f.fld with
+             | some fd =>
+               (match fd.kind with
+                | .ref e => !(rowsById data (r.targets f.fld) e).isEmpty
+                | .arr e => !(rowsById data (r.targets f.fld) e).isEmpty
+                | _ => false)
+             | none => false)
+        match f.op with
+        | .eq => !present
+        | .ne => present
+        | _ => false
+      else filterHolds d s q.ent r f
 
   /-- a mandatory sub-selection must select something -/
   def subPresent (d : Defects) (s : Schema) (data : Data) : Nat → String → Row → Sel → Bool
@@ -434,8 +478,11 @@ def aggValue (d : Defects) (fn : AggFn) (fld : Nat) (g : List Row) : J :=
     No limits or cursors in the covered subset. -/
 def evalGroups (d : Defects) (s : Schema) (data : Data) (fuel : Nat) (myKey : String) (q : Query)
     (cands : List Row) : List J :=
+  let isAggName (n : String) : Bool := q.sels.any fun sel => match sel with | .agg key _ _ => key = n | _ => false
+  let having := q.filters.filter fun f => f.onAlias && isAggName f.name
+  let wheres := q.filters.filter fun f => !(f.onAlias && isAggName f.name)
   let ok := cands.filter fun r =>
-    r.ent = q.ent && q.filters.all (filterHolds d s q.ent r) &&
+    r.ent = q.ent && wheres.all (filterHolds d s q.ent r) &&
       q.sels.all (fun sel => subPresent d s data fuel myKey r sel)
   -- without a grouping field there is exactly one group, even when no row is selected
   let groups := if (groupFields q).isEmpty then [ok] else groupRows q ok
@@ -454,6 +501,14 @@ def evalGroups (d : Defects) (s : Schema) (data : Data) (fuel : Nat) (myKey : St
     | some (J.str t) => Val.str t
     | some (J.bool b) => Val.bool b
     | _ => Val.null
+  let valOf (row : List (String × J)) (n : String) : Val :=
+    match (row.find? (·.1 = n)).map (·.2) with
+    | some (J.int i) => Val.int i
+    | some (J.str t) => Val.str t
+    | some (J.bool b) => Val.bool b
+    | _ => Val.null
+  -- filters on aggregate aliases apply to the groups
+  let rows := rows.filter fun row => having.all fun f => compare? f.op (valOf row f.name) f.value
   let sorted := sortBy (fun a b => tupleLe q.orders (q.orders.map (keyOf a)) (q.orders.map (keyOf b))) rows
   sorted.map J.obj
 
